@@ -211,6 +211,16 @@ def _anchor_identity(residue, atomname, fit):
                 at = residue.get_atom(nm)
             if at is not None and np.abs(np.array([at.x, at.y, at.z]) - fit["anchors"][k]).max() < 1e-9:
                 ok = True
+                if nm in ("N+1", "C-1"):
+                    # the neighbour's atom is an anchor only as a *bonded* atom: across a backbone gap it is not
+                    own = residue.get_atom("C" if nm == "N+1" else "N")
+                    if own is not None:
+                        d = float(np.linalg.norm(np.array([own.x, own.y, own.z]) - fit["anchors"][k]))
+                        if d > 2.0:
+                            _ev(hook="create_atom", clause="placement", mech="anchor-across-backbone-gap",
+                                detail=f"placing {atomname}: anchor {nm} is {d:.2f} A from this residue's {own.name} - not "
+                                       f"bonded to it (backbone gap)", residue=str(residue), resname=residue.name)
+                            return
                 break
         if not ok:
             _ev(hook="create_atom", clause="placement", mech="anchor-paired-with-wrong-atom",
